@@ -188,7 +188,7 @@ class C01(Prop):
                   '(composes C03 fragmentation/reassembly, C05 send-queue order, and deliver_proj: the fragment cache treats interleaved streams independently); c01_transport — with a round-tripping codec any chunking of the '
                   'length-prefixed byte stream parses to the same frames (instance of C04); c01_end_to_end — both together; c01_drainable (the drain hypothesis is satisfiable for every input); '
                   'c01_response_reaches_its_requester and c01_dispatch_by_stream_id on the engine model. c01_end_to_end_bytes closes the codec hypothesis with the C02 encoder/decoder themselves (Proofs/Bridge.lean: bridge, onWire_toFrames, encF_length): frames within the wire ranges, real serialisation of every fragment, any chunking. '
-                  'c01_api_payloads_end_to_end (Props/C01Api.lean) puts the frame builders of rsocket/frame_builders.py - regenerated from their source on every run, c02_builders_match_source - in front of it: the Payload objects (each part None, empty or bytes) handed to payload-carrying builder calls arrive per stream as exactly those (metadata, data) pairs, in order, through fragmentation, interleaving, real serialisation and any read chunking; c01_base_is_built_frame ties the fragmentation model's frame to the builder's. c01_two_endpoints — two engine models (client and server) joined by a FIFO of whole frames per direction, every interleaving of local entry points on either side with deliveries: for every stream id and either endpoint, the non-empty payloads handed to the application are a subsequence of those the peer\'s application handed in on that stream, in order (nothing twice, altered, reordered or on another stream; steps that process no frame deliver nothing); c01_element_reaches_its_subscriber / c01_request_reaches_handler (nothing lost while the receiver is registered). '
+                  'c01_api_payloads_end_to_end (Props/C01Api.lean) puts the frame builders of rsocket/frame_builders.py - regenerated from their source on every run, c02_builders_match_source - in front of it: the Payload objects (each part None, empty or bytes) handed to payload-carrying builder calls arrive per stream as exactly those (metadata, data) pairs, in order, through fragmentation, interleaving, real serialisation and any read chunking; c01_base_is_built_frame ties the frame of the fragmentation model to the frame the builder returns. c01_two_endpoints — two engine models (client and server) joined by a FIFO of whole frames per direction, every interleaving of local entry points on either side with deliveries: for every stream id and either endpoint, the non-empty payloads handed to the application are a subsequence of those the peer\'s application handed in on that stream, in order (nothing twice, altered, reordered or on another stream; steps that process no frame deliver nothing); c01_element_reaches_its_subscriber / c01_request_reaches_handler (nothing lost while the receiver is registered). '
                   'Which subscriber a reassembled frame reaches is stated on the engine model, which sees whole frames (the byte path below it is c01_end_to_end_bytes; the two are composed by argument, not by one theorem); timing and asyncio scheduling are outside the models. Correspondence run: a real client and a real server joined by a simulated link, '
                   'all five interaction models from both sides, payloads of 0 bytes to several fragments, both framings, harness-chosen delivery order and read chunking.')
     level_note = 'Trusted: as C02–C05 and C07; that asyncio runs the sender/receiver tasks in one of the modelled orders is covered by the full-stack run only.'
